@@ -31,6 +31,7 @@ U == INSTANCE TierUniverse WITH N <- N, K <- K, LabelsU <- {"a", "b"}
 Narrow(t) == [t EXCEPT !.hi = IF t.ents = <<>> THEN N - 1 ELSE Max2(N - 1, IF t.kind = "I" THEN t.ents[Len(t.ents)].e ELSE t.ents[Len(t.ents)].t)]
 EditTgs == { MkTg(0, N, <<a, b>>) : a \in U!IvTiers("n1"), b \in U!PtTiers("n2") }
            \cup { MkTg(0, N, <<a, b>>) : a \in U!IvTiers("n1"), b \in { Narrow(x) : x \in U!IvTiers("n2") } }
+           \cup { MkTg(0, N, <<b, a>>) : a \in U!PtTiers("n1"), b \in { Narrow(x) : x \in U!IvTiers("n2") } }     \* the narrower tier first
            \cup { MkTg(0, N, <<>>) }             \* no tiers: only the textgrid's own argument checks can reject a call
 ESeq == SetToSeq(EditTgs)
 MyEdit == { ESeq[i] : i \in { j \in 1..Len(ESeq) : j % NSlices = Slice } }
